@@ -20,8 +20,14 @@ CHECKS = {
               "abstract matrices + abstract linear-algebra equivalences), CG recurrence residual = true residual. The model is tied "
               "to the real CBigLinProb on every run by an in-process op-sequence harness (bit comparison with the Float instance, "
               "1e-11 comparison with the exact Rat instance) and the implementation's solve results are checked against an "
-              "independent dense constrained solve. PCG termination/accuracy in floating point is runtime behaviour: observed, "
-              "labelled partial."),
+              "independent dense constrained solve. The complex solver (cspars.cpp without Newton matrices) is modelled too "
+              "(Model/Complex.lean = CComplex arithmetic incl. the scaled division, Model/CSparse.lean = Put/Get/AddTo/MultA/"
+              "MultPC/MultAPPA/SetValue with its own scan window/Periodicity/AntiPeriodicity/PCGSQStart/PBCGSolve), tied the "
+              "same way (csparse harness, Float bits and exact Rat), with theorems that Cx K under the CComplex operators is a "
+              "field for every ordered field K (division exact in both branches), that the complex constraint operations are the "
+              "generic ones over that field, and the constrained-system theorems for them; complex solves are checked against a "
+              "dense complex constrained solve. PCG / PBCG termination and accuracy in floating point is runtime behaviour: "
+              "observed, labelled partial."),
         design_ref="DESIGN.md section 3, C09",
         technique="Lean 4 proof (refinement + induction over op histories) + model/implementation correspondence over generated op sequences",
     ),
